@@ -14,115 +14,6 @@ open Bpp.Text Bpp.Text.Keyval Bpp.Text.Vars
 
 /-! ## whenever it returns, no reference is left (any map, cyclic or not) -/
 
-theorem resolveOne_done_clean (am : Map) (key : Str) (n : Nat) (v v' : Str)
-    (h : resolveOne am key n v = .done v') : find ['$', '('] v' = none := by
-  induction n generalizing v with
-  | zero =>
-    rw [resolveOne] at h
-    cases hf : find ['$', '('] v with
-    | none => simp [hf] at h; rw [← h]; exact hf
-    | some i => simp [hf] at h
-  | succ n ih =>
-    rw [resolveOne] at h
-    cases hf : find ['$', '('] v with
-    | none => simp [hf] at h; rw [← h]; exact hf
-    | some i =>
-      simp only [hf] at h
-      cases hc : findFrom [')'] v i with
-      | none => simp [hc] at h
-      | some j => simp only [hc] at h; exact ih _ h
-
-theorem mapFind_mapSet (k k' v : Str) (am : Map) :
-    mapFind k' (mapSet k v am) = if k' = k ∧ (mapFind k am).isSome then some v else mapFind k' am := by
-  induction am with
-  | nil => simp [mapSet, mapFind]
-  | cons e am ih =>
-    rcases e with ⟨ke, ve⟩
-    simp only [mapSet]
-    by_cases h1 : ke = k
-    · subst h1
-      by_cases h2 : k' = ke
-      · subst h2; simp [mapFind]
-      · have : (k' == ke) = false := by simpa using h2
-        simp [mapFind, this, h2]
-    · have h1' : (ke == k) = false := by simpa using h1
-      have h1'' : (k == ke) = false := by simpa using fun h => h1 h.symm
-      simp only [h1', Bool.false_eq_true, if_false, mapFind, h1'']
-      by_cases h2 : k' = ke
-      · subst h2
-        have : ¬ k' = k := h1
-        simp [this]
-      · have : (k' == ke) = false := by simpa using h2
-        simp only [this, Bool.false_eq_true, if_false]; exact ih
-
-/-- "clean at `k`": the entry of `k`, if any, contains no `$(` -/
-def CleanAt (m : Map) (k : Str) : Prop := ∀ v, mapFind k m = some v → find ['$', '('] v = none
-
-theorem resolveKeys_clean (fuel : Nat) (ks : List Str) (am m : Map)
-    (h : resolveKeys fuel ks am = .ok m) :
-    (∀ k, k ∈ ks → CleanAt m k) ∧ (∀ k, CleanAt am k → CleanAt m k)
-    ∧ (∀ k, (mapFind k m).isSome → (mapFind k am).isSome) := by
-  induction ks generalizing am with
-  | nil =>
-    simp [resolveKeys] at h; subst h
-    exact ⟨fun k hk => by simp at hk, fun k hk => hk, fun k hk => hk⟩
-  | cons a ks ih =>
-    rw [resolveKeys] at h
-    cases hf : mapFind a am with
-    | none =>
-      simp only [hf] at h
-      obtain ⟨i1, i2, i3⟩ := ih am h
-      refine ⟨?_, i2, i3⟩
-      intro k hk
-      rcases List.mem_cons.mp hk with rfl | hk
-      · intro v hv
-        have := i3 k (by rw [hv]; rfl)
-        rw [hf] at this; cases this
-      · exact i1 k hk
-    | some v =>
-      simp only [hf] at h
-      cases hr : resolveOne am a fuel v with
-      | exc => simp [hr] at h
-      | diverge => simp [hr] at h
-      | done v' =>
-        simp only [hr] at h
-        have hcl := resolveOne_done_clean am a fuel v v' hr
-        obtain ⟨i1, i2, i3⟩ := ih _ h
-        have hset : CleanAt (mapSet a v' am) a := by
-          intro w hw
-          rw [mapFind_mapSet] at hw
-          simp [hf] at hw; rw [← hw]; exact hcl
-        refine ⟨?_, ?_, ?_⟩
-        · intro k hk
-          rcases List.mem_cons.mp hk with rfl | hk
-          · exact i2 k hset
-          · exact i1 k hk
-        · intro k hk
-          apply i2
-          intro w hw
-          rw [mapFind_mapSet] at hw
-          by_cases hka : k = a
-          · subst hka; simp [hf] at hw; rw [← hw]; exact hcl
-          · simp [hka] at hw; exact hk w hw
-        · intro k hk
-          have := i3 k hk
-          rw [mapFind_mapSet] at this
-          by_cases hka : k = a
-          · subst hka; rw [hf]; rfl
-          · simpa [hka] using this
-
-theorem mapFind_isSome_mem (k : Str) (am : Map) (h : (mapFind k am).isSome) : k ∈ am.map (·.1) := by
-  induction am with
-  | nil => simp [mapFind] at h
-  | cons e am ih =>
-    rcases e with ⟨ke, ve⟩
-    simp only [mapFind] at h
-    by_cases hk : k = ke
-    · subst hk; simp
-    · have : (k == ke) = false := by simpa using hk
-      simp only [this, Bool.false_eq_true, if_false] at h
-      exact List.mem_cons_of_mem _ (ih h)
-
 /-- **no resolvable reference remains**: whenever `resolveVariables` returns (whatever the map —
 cyclic, malformed, any order), no value of the result contains `$(` -/
 theorem resolve_no_reference (fuel : Nat) (am m : Map) (h : resolveVariables fuel am = .ok m) :
@@ -133,103 +24,6 @@ theorem resolve_no_reference (fuel : Nat) (am m : Map) (h : resolveVariables fue
   exact i1 k hin v hv
 
 /-! ## acyclic definitions: termination and the value reached -/
-
-theorem min_level (env : SEnv) (V : List Seg) :
-    ∀ N, okAt env N V = true → ∃ n, n ≤ N ∧ okAt env n V = true ∧ ∀ m, m < n → okAt env m V = false := by
-  intro N
-  induction N using Nat.strongRecOn with
-  | _ N ih =>
-    intro h
-    by_cases hex : ∃ m, m < N ∧ okAt env m V = true
-    · obtain ⟨m, hm, hok⟩ := hex
-      obtain ⟨n, hn, h1, h2⟩ := ih m hm hok
-      exact ⟨n, by omega, h1, h2⟩
-    · refine ⟨N, Nat.le_refl _, h, ?_⟩
-      intro m hm
-      cases hh : okAt env m V
-      · rfl
-      · exact absurd ⟨m, hm, hh⟩ hex
-
-theorem outer_loop (env : SEnv)
-    (hwf : env.all (fun e => e.2.all segOk) = true) (hd : distinctKeys env = true)
-    (hok : env.all (fun e => okAt env env.length e.2) = true) :
-    ∀ (ks done : List Str), (∀ k ∈ ks, (slookup env k).isSome) → ks.Nodup →
-      (∀ k ∈ ks, done.contains k = false) →
-      ∃ F, ∀ fuel, F ≤ fuel →
-        resolveKeys fuel ks (amOf env env.length done env) = .ok (amOf env env.length (ks.reverse ++ done) env) := by
-  intro ks
-  induction ks with
-  | nil => intro done _ _ _; exact ⟨0, fun fuel _ => by simp [resolveKeys]⟩
-  | cons a ks ih =>
-    intro done hdef hnd hdone
-    have hnd' := List.nodup_cons.mp hnd
-    obtain ⟨segsa, ha⟩ := Option.isSome_iff_exists.mp (hdef a (List.mem_cons_self ..))
-    have hoka : okAt env env.length segsa = true := (List.all_eq_true.mp hok) _ (slookup_mem ha)
-    have hsega : segsa.all segOk = true := (List.all_eq_true.mp hwf) _ (slookup_mem ha)
-    obtain ⟨n, hn, hokn, hmin⟩ := min_level env segsa _ hoka
-    obtain ⟨c, hc⟩ := inner_claim env env.length done a segsa hwf ha n hn hmin segsa hsega hokn
-    have hstab : expand env env.length segsa = expand env n segsa := expand_stable env n segsa hokn _ hn
-    have hcl : cleanText (expand env n segsa) = true := expand_clean env hwf n segsa hsega
-    have hda : done.contains a = false := hdone a (List.mem_cons_self ..)
-    obtain ⟨F', hF'⟩ := ih (a :: done) (fun k hk => hdef k (List.mem_cons_of_mem _ hk)) hnd'.2
-      (by
-        intro k hk
-        have hka : (k == a) = false := by
-          cases hh : k == a
-          · rfl
-          · have : k = a := by simpa using hh
-            rw [this] at hk; exact absurd hk hnd'.1
-        rw [contains_cons_ne done hka]; exact hdone k (List.mem_cons_of_mem _ hk))
-    refine ⟨c + F', fun fuel hfuel => ?_⟩
-    obtain ⟨K, rfl⟩ : ∃ K, fuel = c + K := ⟨fuel - c, by omega⟩
-    rw [resolveKeys]
-    have hfind : mapFind a (amOf env env.length done env) = some (renderSegs segsa) := by
-      rw [mapFind_amOf, ha]; simp only [Option.map_some, hda, Bool.false_eq_true, if_false]
-    have hres : resolveOne (amOf env env.length done env) a (c + K) (renderSegs segsa) = .done (expand env env.length segsa) := by
-      have := hc K [] [] (by simp [cleanText])
-      simp only [List.nil_append, List.append_nil] at this
-      rw [this, resolveOne_clean _ _ _ _ hcl, hstab]
-    simp only [hfind, hres]
-    rw [mapSet_amOf env env.length done env a segsa hd ha hda, hF' (c + K) (by omega)]
-    simp [List.reverse_cons, List.append_assoc]
-
-theorem slookup_none_not_mem {env : SEnv} {k : Str} (h : slookup env k = none) : k ∉ env.map (·.1) := by
-  induction env with
-  | nil => simp
-  | cons e env ih =>
-    rcases e with ⟨k', s'⟩
-    simp only [slookup] at h
-    split at h
-    · cases h
-    · rename_i hne
-      have : ¬ k = k' := by simpa using hne
-      simp only [List.map_cons, List.mem_cons, not_or]
-      exact ⟨this, ih h⟩
-
-theorem distinct_nodup {env : SEnv} (h : distinctKeys env = true) : (env.map (·.1)).Nodup := by
-  induction env with
-  | nil => simp
-  | cons e env ih =>
-    rcases e with ⟨k, s⟩
-    simp only [distinctKeys, Bool.and_eq_true] at h
-    simp only [List.map_cons, List.nodup_cons]
-    refine ⟨slookup_none_not_mem ?_, ih h.2⟩
-    cases hh : slookup env k with
-    | none => rfl
-    | some x => rw [hh] at h; simp at h
-
-theorem slookup_of_mem {env : SEnv} {k : Str} (h : k ∈ env.map (·.1)) : (slookup env k).isSome := by
-  induction env with
-  | nil => simp at h
-  | cons e env ih =>
-    rcases e with ⟨k', s'⟩
-    simp only [slookup]
-    by_cases hk : k = k'
-    · subst hk; simp
-    · have : (k == k') = false := by simpa using hk
-      simp only [this, Bool.false_eq_true, if_false]
-      simp only [List.map_cons, List.mem_cons, hk, false_or] at h
-      exact ih h
 
 /-- **acyclic definitions ⇒ the loop terminates and reaches the full expansion**, for every list
 order of the definitions (references to entries visited later are inlined and resolved in place,
@@ -265,14 +59,6 @@ theorem resolved_clean (env : SEnv) (h : AcyclicOk env = true) :
   obtain ⟨e, he, rfl⟩ := List.mem_map.mp hkv
   exact expand_clean env h.1.2 _ _ ((List.all_eq_true.mp h.1.2) e he)
 
-theorem flatMap_congr' {α β : Type} (l : List α) (f g : α → List β) (h : ∀ x ∈ l, f x = g x) :
-    l.flatMap f = l.flatMap g := by
-  induction l with
-  | nil => rfl
-  | cons a l ih =>
-    simp only [List.flatMap_cons]
-    rw [h a (List.mem_cons_self ..), ih (fun x hx => h x (List.mem_cons_of_mem _ hx))]
-
 /-- … and they are a **fixed point**: each resolved value is its definition with every reference
 replaced by the resolved value of the entry it names (nothing for an undefined name).  The equation
 does not mention any order of the entries. -/
@@ -297,7 +83,7 @@ theorem resolved_is_fixed_point (env : SEnv) (h : AcyclicOk env = true) :
         | none => []
         | some segs => expand env N' segs) := by rw [expand]; rfl
   rw [hN', step]
-  apply flatMap_congr'
+  apply flatMapCongr
   intro s hs
   cases s with
   | lit t => rfl
